@@ -380,8 +380,7 @@ def _cifar(check: Check):
              f'{want}(num_pixels); fedjax uses {form}(num_pixels): low-contrast / constant images are scaled differently'
              if form != want else f'floor is {form}(num_pixels) as in TensorFlow', node=floor)
     # num_pixels is the per-image element count
-    npx = any(isinstance(x, ast.Name) and any(isinstance(d.value, ast.Call) and ff.ext(d.value.func) == 'numpy.prod' and '[-3:]' in txt(
-        d.value.args[0]) for d in ff.defs_for(x)) for x in ff.deep_walk(floor))
+    npx = any(isinstance(x, ast.Call) and ff.ext(x.func) == 'numpy.prod' and x.args and '[-3:]' in txt(x.args[0]) for x in ff.deep_walk(floor))
     check.ob('R-SIB.tf', fi, 'num_pixels = prod(image.shape[-3:])', npx, 'pixel count per image (height * width * channels)')
     # ... of the image that is standardised, i.e. after cropping: the array whose shape is taken is the one whose mean / std are taken
     p_img = fi.positional_params[0]
